@@ -126,8 +126,11 @@ def _exact_cases(tier):
                         combos = list(itertools.product(DTS, (1, 2, 3)))
                     for dt, steps in combos:
                         yield ['exact', name, L, qD, integ, [dt.real, dt.imag], steps, 'complex']
-                    for dt, steps in ([(DTS[0], 1), (DTS[2], 2)] if tier == 'quick' else combos):
+                    for dt, steps in ([(DTS[0], 1), (DTS[1], 1), (DTS[2], 2)] if tier == 'quick' else combos):
                         yield ['exact', name, L, qD, integ, [dt.real, dt.imag], steps, 'real']
+                    # the Hamiltonian in small units (times 2^-30) with the time step in the corresponding large units: |dt| ||H|| unchanged
+                    for dt, steps in ([(DTS[0], 1)] if tier == 'quick' else [(DTS[0], 1), (DTS[2], 2)]):
+                        yield ['exact', name, L, qD, integ, [dt.real, dt.imag], steps, 'complex', 'maximal', 'small_units']
                     # over-complete bonds (every multiplicity one above the sector-complete one): the manifold is still the whole sector;
                     # the sweep then meets non-square bond matrices
                     qDo = palette.sector_profile(L, qd, 0, tot, 'over')
@@ -138,7 +141,8 @@ def _exact_cases(tier):
 def run_exact_case(case, ctx):
     _, name, L, qD, integ, dtp, steps = case[:7]
     skind = case[7] if len(case) > 7 else 'complex'
-    dt = complex(dtp[0], dtp[1])
+    # a real time step is passed as a Python float (what a user types), a non-real one as complex
+    dt = complex(dtp[0], dtp[1]) if dtp[1] != 0 else float(dtp[0])
     H = ec.build_hamiltonian(name, L, ctx.rng(5))
     qd = [int(x) for x in H.qd]
     # The statement claims exactness whenever the bond dimensions admit every vector of the sector, which every sector-complete
@@ -150,6 +154,11 @@ def run_exact_case(case, ctx):
     pred = palette.exactness_predicate(qd, qDm, twosite=(integ == 'two'))
     ctx.cls('profile:' + prof)
     ctx.cls('layout_with_complete_split' if pred else 'layout_without_complete_split')
+    if len(case) > 9 and case[9] == 'small_units':
+        unit = 2.0 ** -30
+        H.A[0] = H.A[0] * unit
+        dt = dt / unit
+        ctx.cls('hamiltonian_in_small_units')
     psi = ec.make_state(ctx.rng(0), qd, qD, skind)
     ctx.cls('state_dtype:' + skind)
     v0 = dense.mps_to_vector(psi.A)
@@ -204,7 +213,7 @@ def _rev_cases(tier):
                     combos = [(DTS[0], 1), (DTS[1], 2), (DTS[2], 1), (DTS[3], 3)] if tier == 'quick' else list(itertools.product(DTS, (1, 2, 3)))
                     for dt, steps in combos:
                         yield ['reverse', name, L, qD, [dt.real, dt.imag], steps, 'complex']
-                    for dt, steps in ([(DTS[0], 1), (DTS[3], 2)] if tier == 'quick' else combos):
+                    for dt, steps in ([(DTS[0], 1), (DTS[1], 1), (DTS[3], 2)] if tier == 'quick' else combos):
                         yield ['reverse', name, L, qD, [dt.real, dt.imag], steps, 'real']
 
 
@@ -216,7 +225,8 @@ def full_rank(v, d, L):
 def run_rev_case(case, ctx):
     _, name, L, qD, dtp, steps = case[:6]
     skind = case[6] if len(case) > 6 else 'complex'
-    dt = complex(dtp[0], dtp[1])
+    # a real time step is passed as a Python float (what a user types), a non-real one as complex
+    dt = complex(dtp[0], dtp[1]) if dtp[1] != 0 else float(dtp[0])
     H = ec.build_hamiltonian(name, L, ctx.rng(5))
     qd = [int(x) for x in H.qd]
     d = len(qd)
